@@ -139,7 +139,10 @@ class PITFrozenDilationMasker(PITDilationMasker):
             rf,
             trainable=False,
         )
-        self.gamma.requires_grad = False
+        # a frozen mask is a constant: keep it in a buffer so that it is never a trainable parameter
+        gamma = self.gamma.detach()
+        del self.gamma
+        self.register_buffer('gamma', gamma)
 
     @property
     def trainable(self) -> bool:
